@@ -34,6 +34,10 @@ M("esp-charge-mask", ESP, "external_potential[dist < threshold_dist] = 0", "exte
 M("esp-pot-mask", ESP, "external_potential[dist < threshold_dist] = 0", "external_potential[external_potential > 1.0 / np.array(threshold_dist)] = 0", "C14")
 M("esp-no-transform", ESP, "        basis, points, -np.ones(points.shape[0]), transform=transform\n", "        basis, points, -np.ones(points.shape[0])\n", "C14")
 M("esp-plus-charge", ESP, "        basis, points, -np.ones(points.shape[0]), transform=transform\n", "        basis, points, np.ones(points.shape[0]), transform=transform\n", "C14")
+M("esp-ghost-filter-pos", ESP, "    hartree_potential = np.sum(hartree_potential, axis=(0, 1))\n",
+  "    hartree_potential = np.sum(hartree_potential, axis=(0, 1))\n    keep = nuclear_charges > 0\n    nuclear_coords = nuclear_coords[keep]\n    nuclear_charges = nuclear_charges[keep]\n", "C14")
+OK("esp-ghost-filter-nonzero", ESP, "    hartree_potential = np.sum(hartree_potential, axis=(0, 1))\n",
+   "    hartree_potential = np.sum(hartree_potential, axis=(0, 1))\n    keep = nuclear_charges != 0\n    nuclear_coords = nuclear_coords[keep]\n    nuclear_charges = nuclear_charges[keep]\n", "C14")
 M("esp-sign", ESP, "    return -(external_potential + hartree_potential)", "    return -(external_potential - hartree_potential)", "C14")
 M("esp-size-notransform", ESP, "    if transform is not None:\n        # the density matrix", "    if False:\n        # the density matrix", "C14")
 M("esp-size-axis", ESP, "        if transform.shape[0] != one_density_matrix.shape[0]:", "        if transform.shape[1] != one_density_matrix.shape[0]:", "C14")
@@ -210,3 +214,20 @@ M("c12-mom-comp", MI, "    integrals[0, 0, 1:2, :, :, :] = rel_coord_a * integra
 M("c12-kin-table", KE, "            np.array([[2, 0, 0], [0, 2, 0], [0, 0, 2]]),", "            np.array([[2, 0, 0], [0, 2, 0], [0, 1, 1]]),", "C12,C02")
 M("c12-stable", MI, "        -harm_mean * (coord_a - coord_b) ** 2\n", "        exps_sum * coord_wac**2 - exps_a * coord_a**2 - exps_b * coord_b**2\n", "C12,C01")
 M("c12-eval-abs", DV, "    gauss = np.exp(-alphas[:, None, None] * (new_coords**2))", "    gauss = np.exp(-alphas[:, None, None] * (coords.T**2))", "C12,C05")
+
+# ----------------------------------------------------------------------------------------------- round-2 additions
+NEA = "gbasis/integrals/nuclear_electron_attraction.py"
+M("nea-filter-pos", NEA, "    return np.sum(\n", "    keep = nuclear_charges > 0\n    nuclear_coords = nuclear_coords[keep]\n    nuclear_charges = nuclear_charges[keep]\n    return np.sum(\n", "C03")
+OK("nea-filter-nonzero", NEA, "    return np.sum(\n", "    keep = nuclear_charges != 0\n    nuclear_coords = nuclear_coords[keep]\n    nuclear_charges = nuclear_charges[keep]\n    return np.sum(\n", "C03,C09")
+OK("nea-asarray", NEA, "    return np.sum(\n", "    nuclear_charges = np.asarray(nuclear_charges)\n    return np.sum(\n", "C03,C09")
+M("nea-abs", NEA, "    return np.sum(\n", "    nuclear_charges = np.abs(nuclear_charges)\n    return np.sum(\n", "C03")
+OVL = "gbasis/integrals/overlap.py"
+M("scr-wrapper-disables", OVL, '    kwargs = {"tol_screen": tol_screen}\n', '    if len(basis) < 3:\n        tol_screen = None\n    kwargs = {"tol_screen": tol_screen}\n', "C20")
+OK("scr-wrapper-same", OVL, '    kwargs = {"tol_screen": tol_screen}\n', '    tol_screen = tol_screen if tol_screen is not None else tol_screen\n    kwargs = {"tol_screen": tol_screen}\n', "C20")
+M("scr-wrapper-scale", OVL, '    kwargs = {"tol_screen": tol_screen}\n', '    if tol_screen is not None:\n        tol_screen = tol_screen * 10\n    kwargs = {"tol_screen": tol_screen}\n', "C20")
+CT = "    coord_type = [ct for ct in [shell.coord_type for shell in basis]]\n"
+KINW = "gbasis/integrals/kinetic_energy.py"
+M("inputs-basis-reversed", KINW, CT, "    basis = basis[::-1]\n" + CT, "C02")
+OK("inputs-basis-list", KINW, CT, "    basis = list(basis)\n" + CT, "C02,C09")
+M("inputs-transform-T", "gbasis/integrals/momentum.py", CT, "    if transform is not None and transform.shape[0] == transform.shape[1]:\n        transform = transform * 1.0000001\n" + CT, "C08")
+M("inputs-moment-origin", "gbasis/integrals/moment.py", CT, "    moment_coord = moment_coord - basis[0].coord\n" + CT, "C07")
